@@ -18,9 +18,9 @@ import (
 func init() { registry["C07"] = &propDef{e1: c07Scenarios, e2: c07E2} }
 
 type c07Input struct {
-	Disabled int      `json:"disabled_mask"` // bit i: process i is disabled: true
+	Disabled int      `json:"disabled_mask"`   // bit i: process i is disabled: true
 	FG       int      `json:"foreground_mask"` // bit i: process i is is_foreground: true
-	NS       int      `json:"namespace_mask"` // bit i: process i is in namespace "sel" (the one selected), else in "other"
+	NS       int      `json:"namespace_mask"`  // bit i: process i is in namespace "sel" (the one selected), else in "other"
 	UseNS    bool     `json:"namespace_selection"`
 	N        int      `json:"n"`
 	Edges    [][2]int `json:"edges"` // [from, to]: from depends on to (to == N means the undefined name)
